@@ -215,10 +215,8 @@ class InterpBase:
 
     def store_index(self, fr, seq, i, v):
         if isinstance(seq, DictV):
-            if is_z3(i):
-                raise Unsupported("dict store with symbolic key")
             self.log_write(seq, "*")
-            seq.d[i] = v
+            self.dict_store(fr, seq, i, v)
             return
         if not isinstance(seq, ListV):
             raise Unsupported(f"index store on {seq!r}")
@@ -239,8 +237,44 @@ class InterpBase:
         else:
             self.py_raise("IndexError")
 
+    def dict_store(self, fr, d, key, v):
+        """d[key] = v.  A symbolic key (or any key when the dict already holds symbolic keys) splits the path:
+        'equals existing key k' (replace) for each k, or 'new key' (append) - keeping the keys pairwise different."""
+        if isinstance(key, ListV):
+            raise Unsupported("unhashable key")
+        sym = is_z3(key) or (isinstance(key, tuple) and any(is_z3(x) for x in key))
+        if not sym and not d.symbolic():
+            d.d[key] = v
+            return
+        if fr.spec:
+            raise Unsupported("dict store in a specification")
+        keys = list(d.d.keys())
+        conds = [zbool(val_eq(k, key)) for k in keys]
+        new = z3.Not(z3.Or(conds)) if conds else z3.BoolVal(True)
+        idx = self.run.choose(conds + [new], names=[f"key={k!r}" for k in keys] + ["new-key"])
+        if idx < len(keys):
+            d.d[keys[idx]] = v
+        else:
+            d.d[SymKey(key) if sym else key] = v
+
+    def dict_remove(self, fr, d, key, must_exist=False):
+        keys = list(d.d.keys())
+        if not is_z3(key) and not d.symbolic():
+            if key in d.d:
+                del d.d[key]
+            elif must_exist:
+                self.py_raise("KeyError")
+            return
+        conds = [zbool(val_eq(k, key)) for k in keys]
+        miss = z3.Not(z3.Or(conds)) if conds else z3.BoolVal(True)
+        idx = self.run.choose(conds + [miss], names=[f"key={k!r}" for k in keys] + ["miss"])
+        if idx < len(keys):
+            del d.d[keys[idx]]
+        elif must_exist:
+            self.py_raise("KeyError")
+
     def dict_get(self, fr, d, key, raise_key=False, default=None):
-        if not is_z3(key):
+        if not is_z3(key) and not d.symbolic():
             if isinstance(key, ListV):
                 raise Unsupported("unhashable key")
             if isinstance(key, tuple) and any(is_z3(x) for x in key):
@@ -446,7 +480,7 @@ class InterpBase:
         if isinstance(container, tuple):
             container = ListV(list(container), kind="tuple")
         if isinstance(container, DictV):
-            if not is_z3(x) and not (isinstance(x, tuple) and any(is_z3(t) for t in x)):
+            if not container.symbolic() and not is_z3(x) and not (isinstance(x, tuple) and any(is_z3(t) for t in x)):
                 return x in container.d
             return zor(*[val_eq(k, x) for k in container.d])
         if isinstance(container, ListV):
